@@ -1,2 +1,69 @@
+//! C15 — the GDSII real codec.  Values cross the boundary as 16 hexadecimal digits (JSON arrays of
+//! ints), never as decimal text, so that nothing but `GdsFloat64::{encode,decode}` touches them.
+use crate::util::*;
 use crate::CmdFn;
-pub fn commands() -> Vec<(&'static str, CmdFn)> { vec![] }
+use gds21::GdsFloat64;
+use serde_json::{json, Value};
+
+pub fn commands() -> Vec<(&'static str, CmdFn)> {
+    vec![("gdsreal", gdsreal)]
+}
+
+pub fn digits(v: u64) -> Vec<u8> {
+    (0..16).map(|i| ((v >> (60 - 4 * i)) & 0xF) as u8).collect()
+}
+pub fn undigits(v: &Value) -> u64 {
+    let mut r = 0u64;
+    for d in v.as_array().expect("digits") {
+        r = (r << 4) | (d.as_u64().unwrap() & 0xF);
+    }
+    r
+}
+
+fn one_d(x: u64) -> Value {
+    let g = GdsFloat64::encode(f64::from_bits(x));
+    let back = GdsFloat64::decode(g).to_bits();
+    json!({"kind":"d","x":digits(x),"g":digits(g),"back":digits(back)})
+}
+fn one_g(g: u64) -> Value {
+    let x = GdsFloat64::decode(g);
+    // Re-encoding is only claimed for reals with <= 53 significant bits; for the few largest reals the
+    // correctly rounded double is 16^63 itself, which is outside the encoder's domain: not a verdict.
+    let re = std::panic::catch_unwind(|| GdsFloat64::encode(x)).ok();
+    json!({"kind":"g","g":digits(g),"x":digits(x.to_bits()),"re":re.map(digits).unwrap_or_else(|| digits(0))})
+}
+
+fn gdsreal(case: &Value) -> Value {
+    let kind = gets(case, "kind");
+    let mut r = match kind {
+        "d" => one_d(undigits(&case["x"])),
+        "g" => one_g(undigits(&case["g"])),
+        "rand" => {
+            let mut rng = Rng::new(geti(case, "seed") as u64);
+            let n = geti(case, "n");
+            let mut ev = Vec::new();
+            for i in 0..n {
+                if i % 2 == 0 {
+                    // uniform over sign, binade in range, fraction bits
+                    let s = rng.below(2);
+                    let e = (rng.range(-256, 251) + 1023) as u64;
+                    let f = rng.next() & ((1u64 << 52) - 1);
+                    ev.push(one_d((s << 63) | (e << 52) | f));
+                } else {
+                    let s = rng.below(2);
+                    let x = rng.below(127) + 1;
+                    let mut m = rng.next() & ((1u64 << 56) - 1);
+                    if (m >> 52) == 0 { m |= (rng.below(15) + 1) << 52; }
+                    // a third of the reals carry at most 53 significant bits (re-encoding must be exact)
+                    if i % 3 == 0 { let lz = (m >> 52).leading_zeros() - 60; m &= !((1u64 << (3 - lz)) - 1); }
+                    ev.push(one_g((s << 63) | (x << 56) | m));
+                }
+            }
+            json!({"kind":"rand","events":ev})
+        }
+        _ => panic!("harness: bad kind"),
+    };
+    r["id"] = id(case);
+    r["outcome"] = json!("ok");
+    r
+}
